@@ -34,7 +34,8 @@ EXPLANATION = (
     " (R10, extended) the STEP of a FOR is evaluated once, by the FOR line: the second operand of the increment is a value computed before the loop (a variable of the generator's own making, followed as a cell through the template), never an expression evaluated again inside it."
     " (R5, extended) the names of the generator's own variables are built like labels: purpose and whole position, fields separated, and contain a character no identifier contains."
     " (R13) every call of the converting expression emitter is directly followed by an emission that consumes A into a typed place (a store, PushNamed, VarPathIndex): nothing that is only compared is converted first."
-    " (R14) after the parser nothing chooses an operator: the operator of every BinaryExpression / UnaryExpression node the checker or the generator builds is the operator of the node it is built from, followed through parameters to the callers.")
+    " (R14) after the parser nothing chooses an operator: the operator of every BinaryExpression / UnaryExpression node the checker or the generator builds is the operator of the node it is built from, followed through parameters to the callers."
+    " (R15 = C03.R12) the variables of the generator's own making (FOR limit and step, the SELECT CASE value) are filed with the running call, not with the module level: a loop inside a procedure that is re-entered from its own body keeps its limit, as the WHILE spelling of the same loop does.")
 NOT_DECIDED = [
     "the listed rewrite equivalences themselves (FOR = WHILE, SELECT = IF chain ...): relational "
     "properties of run-time behaviour",
@@ -1071,3 +1072,5 @@ def run(ctx):
     r11_tested_value_is_not_a_bitwise_complement(ctx)
     r13_conversions_only_in_front_of_typed_places(ctx)
     r14_operators_are_copied(ctx)
+    from . import c03
+    c03.r12_generator_made_variables_live_with_the_call(ctx, "C02.R15")
